@@ -11,6 +11,7 @@ import re
 from gemato.exceptions import (
     ManifestSyntaxError,
     ManifestUnsignedData,
+    OpenPGPSigningFailure,
     UnsupportedHash,
     )
 from gemato.util import (
@@ -538,6 +539,14 @@ class ManifestFile:
             with io.StringIO() as data:
                 # get the plain data into a stream
                 self.dump(data, sign_openpgp=False)
+                # GnuPG would silently leave the end of such a line
+                # out of the signature (and out of the output)
+                for line in data.getvalue().split('\n'):
+                    if (len(line.encode('utf8', 'surrogatepass')) + 1
+                            > OPENPGP_MAX_LINE_LENGTH):
+                        raise OpenPGPSigningFailure(
+                            f'line too long to be covered by an OpenPGP '
+                            f'cleartext signature: {line[:64]}...')
                 data.seek(0)
                 openpgp_env.clear_sign_file(data, f, keyid=openpgp_keyid)
         else:
